@@ -76,6 +76,8 @@ DRAW_METHODS_STRICT = {
     "random_integers", "ranf", "bytes", "laplace", "lognormal",
 }
 DRAW_METHODS_LOOSE = {"random", "sample"}  # only on a value known to be a rng
+# constructor options of external estimators that make fit work in place on its input
+NOCOPY_OPTIONS = ("copy_x", "copy_X", "copy")
 # process-global draws
 GLOBAL_DRAW_PREFIXES = ("numpy.random.", "random.")
 GLOBAL_RNG_NONDRAW = {
@@ -1853,6 +1855,14 @@ class Interp:
             if g is not None and g.const is not None:
                 self.emit("mutate", e, frame, target=g, how="draw:" + name)
             return res
+        # external estimator built with an explicit "do not copy the data" option and then fitted:
+        # its fit works in place on the array it is given (KMeans(copy_x=False) centres X and adds the
+        # mean back: the caller's array comes back changed in the last bits)
+        if name in EXT_FIT_METHODS and recv.ckw is not None and recv.ckw.items:
+            for k_ in NOCOPY_OPTIONS:
+                v_ = recv.ckw.items.get(k_)
+                if v_ is not None and v_.const is not True and args:
+                    self.emit("mutate", e, frame, target=args[0], how=f".{name}() with {k_}=False", args=args)
         # external estimator fitted: draws from its random_state
         if name in EXT_FIT_METHODS:
             for c in recv.cls:
